@@ -532,9 +532,9 @@ pub fn gen_al(ch: &mut Choices, max_rules: usize) -> AL {
         let name = if ch.chance(1, 5) {
             None
         } else {
-            // (1/9 of the names begin with a quote character and 1/10 end in one: the name is
+            // (some names begin or end with a quote character or hold a `>`, which also closes a target state: the name is
             // what stands between the first and the last character of the quoted word)
-            Some(format!("{}{}{}", ch.choose(&["T", "tok", "é", "N_", "T", "tok", "é", "N_", "'"]), i, ch.choose(&["", "", "", "", "", "", "", "", "", "\""])))
+            Some(format!("{}{}{}", ch.choose(&["T", "tok", "é", "N_", "T", "tok", "é", "N_", "'", ">", "=>"]), i, ch.choose(&["", "", "", "", "", "", "", "", "", "\"", ">"])))
         };
         al.rules.push(AlRule {
             states,
